@@ -31,7 +31,8 @@ Record cfg := mk_cfg
   ; c_r : N          (* most bytes one poll_read returns *)
   ; c_mh : N         (* shortest request head *)
   ; c_h431 : N       (* length of the encoded 431 response *)
-  ; c_fix21 : bool }. (* dispatcher carries the F21 repair (self-wake after a full queue drained) *)
+  ; c_fix21 : bool   (* dispatcher carries the F21 repair (self-wake after a full queue drained) *)
+  ; c_fix28 : bool }. (* ... generalised: self-wake whenever the decode gate was closed at poll_request and is open at the end of the poll (full queue drained, or paused payload dropped) *)
 
 (* request-body channel (payload.rs `Inner`), chunk lengths only *)
 Record chan := mk_chan
@@ -589,18 +590,25 @@ Section Poll.
   Definition poll_normal (x : sim) : sim * pres :=
     let '(x1, should_disconnect) := read_available_c x in
     let queue_was_full := c_maxp c <=? lenN (q (m x1)) in
+    (* repaired code: was the decode gate of poll_request closed (full queue or !can_read)? *)
+    let gate_was_closed := queue_was_full || negb (can_read (m x1)) in
     let '(x2, _) := poll_request x1 in
     let x3 := if should_disconnect then do_ev EvEof (wake (tgt_task (m x2)) x2) else x2 in
-    let '(x4, fail) := resp_flush_loop F x3 in
+    let '(x4r, fail) := resp_flush_loop F x3 in
     match fail with
-    | Some r => (x4, r)
+    | Some r => (x4r, r)
     | None =>
+        (* repaired code evaluates can_read(cx) here (need_read registers the io waker on Pause) *)
+        let x4 := if c_fix28 c then (if rd_disc (m x4r) then x4r else do_ev EvNeedRead x4r) else x4r in
         let none := match state (m x4) with SNone => true | _ => false end in
         let x5 := if rd_disc (m x4) && none then set_shut_err true (err x4) x4 else x4 in
         if none && (wb (m x5) =? 0) && err x5 then (x5, PFailTooLarge)
         else if none && (wb (m x5) =? 0) && shut x5 then poll_shutdown_branch x5
         else
-          let undecoded := c_fix21 c && queue_was_full && (lenN (q (m x5)) <? c_maxp c) && negb (rb (m x5) =? 0) in
+          let gate_open := (lenN (q (m x5)) <? c_maxp c) && can_read (m x5) in
+          let undecoded :=
+            if c_fix28 c then gate_was_closed && gate_open && negb (rb (m x5) =? 0)
+            else c_fix21 c && queue_was_full && (lenN (q (m x5)) <? c_maxp c) && negb (rb (m x5) =? 0) in
           (wake (shut x5 || undecoded) x5, PPend)
     end.
 
